@@ -73,6 +73,22 @@ def search(payload):
         obs, exp = check(v)
         if obs:
             return {'found': True, 'fails': True, 'input': v, 'observed': obs, 'expected': exp}
+    # call history: the caller keeps ONE bounds list and edits it in place between clips (landscape page -> portrait page)
+    page = [[0.0, 0.0], [11.0, 8.5]]
+    for edit, seg in [(None, [[-2.0, 4.0], [14.0, 4.0]]), ((1, [8.5, 11.0]), [[-2.0, 4.0], [14.0, 4.0]]), ((1, [8.5, 11.0]), [[4.0, -3.0], [4.0, 14.0]]),
+                      ((0, [2.0, 2.0]), [[0.0, 5.0], [9.0, 5.0]]), ((1, [3.0, 3.0]), [[0.0, 2.5], [9.0, 2.5]])]:
+        if edit:
+            page[edit[0]][0], page[edit[0]][1] = edit[1]
+        exp = exact_clip(*[F(x) for x in (seg[0][0], seg[0][1], seg[1][0], seg[1][1], page[0][0], page[0][1], page[1][0], page[1][1])])
+        try:
+            acc, got = pu.clip_segment([list(seg[0]), list(seg[1])], page)
+        except Exception as e:    # noqa
+            return {'found': True, 'fails': True, 'input': {'segment': seg, 'bounds (edited in place)': [list(r) for r in page]}, 'observed': f'raised {type(e).__name__}', 'expected': 'a result'}
+        want = None if exp is None else [[float(F(seg[0][0]) + t * (F(seg[1][0]) - F(seg[0][0]))), float(F(seg[0][1]) + t * (F(seg[1][1]) - F(seg[0][1])))] for t in exp]
+        ok = (not acc) if want is None else (acc and all(abs(g[0] - w[0]) < 1e-8 and abs(g[1] - w[1]) < 1e-8 for g, w in zip(got, want)))
+        if not ok:
+            return {'found': True, 'fails': True, 'input': {'segment': seg, 'bounds (one list edited in place between calls)': [list(r) for r in page]},
+                    'observed': f'{acc}, {got}', 'expected': f'{want}'}
     for _ in range(20000):
         v = [str(F(rnd.randint(-40, 40), rnd.choice([1, 2, 3, 4]))) for _ in range(4)]
         a, b, c, d = sorted([rnd.randint(-10, 10), rnd.randint(-10, 10)]), None, None, None
